@@ -581,3 +581,81 @@ def guard_adequacy(rep, prog, rule, floor_sites=100):
     rep.floor(rule, "helper loads in SIMD kernels", n, floor_sites)
     rep.note("%s: %d of %d helper loads are covered by an explicit length guard" % (rule, cov, n))
     return n, cov
+
+
+def chunk_store(rep, prog, rule):
+    """C05: helpers generic over the number of accumulators store SUMS_COUNT * lanes components
+    through a raw pointer, whatever the length of the chunk they were given."""
+    import re
+    from ..sym import Sym, fmt, short
+    rep.rule(rule, "multiply_components_of_rows::<_, SUMS_COUNT> of the f32 vertical kernels writes "
+             "SUMS_COUNT * K components through a raw pointer into dst_chunk (K = length of the f64 "
+             "spill buffer = lanes of one accumulator); every call site passes a chunk of "
+             "chunks_exact_mut(N) with N = SUMS_COUNT * K: N smaller lets the helper write past the "
+             "chunk (into the next row, the surroundings of a cropped view or past the buffer), N "
+             "larger leaves components of the chunk unassigned")
+    n = 0
+    for f in sorted(prog.fns.values(), key=lambda x: x.id):
+        if not re.match(r"^convolution::vertical_f32::\w+::vert_convolution_into_one_row", f.name):
+            continue
+        sym = None
+        for c in f.calls():
+            tg = prog.call_targets(c)
+            if len(tg) != 1 or "multiply_components_of_rows" not in tg[0].name:
+                continue
+            h = tg[0]
+            sym = sym or Sym(f)
+            n += 1
+            rep.touch(f)
+            cg = [x for x in c.cargs() if isinstance(x, int)]
+            key = "%s|%s<%s>" % (f.name, short(h.name), cg[0] if cg else "?")
+            # K: the spill buffer parameter `&mut [f64; K]`
+            K = None
+            for i in range(1, h.arg_count + 1):
+                m = re.match(r"^&mut \[f64; (\d+)\]$", h.local_ty(i) or "")
+                if m:
+                    K = int(m.group(1))
+            # helper shape: one raw store, pointer advanced by one element per stored value
+            raw = sum(1 for blk in h.blocks if not blk["c"] for st in blk["s"]
+                      if st[0] == "a" and len(st[1]) == 2 and st[1][1] == "*"
+                      and (h.local_ty(st[1][0]) or "").startswith("*mut f32"))
+            adds = [cc for cc in h.calls() if (cc.method or short(cc.name)) == "add"]
+            chunk = None
+            for a in c.args:
+                s = fmt(sym.operand(a, (c.bb, "term")))
+                m = re.search(r"chunks_exact_mut(?:@bb\d+)?\((.*), (\d+)\)", s)
+                if m:
+                    chunk = int(m.group(2))
+            if chunk is None:
+                # the chunk iterator variable is re-assigned between the loops: the chunks_exact_mut
+                # call that dominates this call and is dominated by every other dominating one
+                from ..cfg import Dom
+                dom = Dom(f)
+                best = None
+                for cc in f.calls():
+                    if (cc.method or short(cc.name)) != "chunks_exact_mut" or not dom.dominates(cc.bb, c.bb):
+                        continue
+                    if best is None or dom.dominates(best.bb, cc.bb):
+                        best = cc
+                if best is not None and len(best.args) == 2:
+                    sz = sym.operand(best.args[1], (best.bb, "term"))
+                    if sz[0] == "const":
+                        chunk = sz[1]
+            if not cg or K is None or raw != 1 or len(adds) != 1 or chunk is None:
+                rep.unk(rule, key, c.at, "helper shape or chunk length not recognised (SUMS_COUNT=%s K=%s "
+                        "raw stores=%d chunk=%s)" % (cg[:1], K, raw, chunk))
+                continue
+            written = cg[0] * K
+            if written == chunk:
+                rep.ok(rule, key, c.at, "%d accumulators x %d lanes = chunk of %d" % (cg[0], K, chunk))
+            elif written > chunk:
+                rep.bad(rule, key + "|overrun", c.at,
+                        "%s: %s::<_, %d> stores %d x %d = %d components into a chunk of %d: %d components "
+                        "(%d bytes) are written past the chunk" % (f.name, short(h.name), cg[0], cg[0], K,
+                                                                    written, chunk, written - chunk,
+                                                                    4 * (written - chunk)))
+            else:
+                rep.bad(rule, key + "|short", c.at,
+                        "%s: %s::<_, %d> assigns only %d of the %d components of its chunk"
+                        % (f.name, short(h.name), cg[0], written, chunk))
+    rep.floor(rule, "calls of multiply_components_of_rows", n, 3)
